@@ -26,13 +26,19 @@ def utf8_encode(s):
     return bytes(out)
 
 
+ALL_SOURCES = []      # every key source handed to the library so far (each belongs to one connection)
+
+
 class KeySource:
     def __init__(self, kind, rng):
         self.kind = kind
         self.rng = rng
         self.draws = []
+        self.total = 0
+        ALL_SOURCES.append(self)
 
     def __call__(self, n):
+        self.total += 1
         if self.kind in ("zero", "counter", "ones"):
             # keys a hardened implementation might be tempted to "improve": all zero (no masking effect), 0,1,2,.., all ones
             k = len(self.draws)
@@ -74,6 +80,7 @@ def _one_call(api, op, fin, payload, keykind, trace_on, rng, urandom_draws, writ
             ws.set_mask_key(ks)
     ws.sock = fake
     ws.connected = True
+    foreign0 = sum(k.total for k in ALL_SOURCES if k is not ks)
     n0 = len(urandom_draws)
     nullh = None
     if trace_on:
@@ -144,6 +151,7 @@ def _one_call(api, op, fin, payload, keykind, trace_on, rng, urandom_draws, writ
     else:
         draws = [[k, v] for k, v in ks.draws]
     ev = {"api": api, "fin": fin, "op": op, "n": n, "head": head, "wireLen": len(data), "ret": -1 if ret is None else int(ret),
+          "foreignDraws": sum(k.total for k in ALL_SOURCES if k is not ks) - foreign0,
           "draws": draws, "keyKind": keykind, "writes": len(fake.sent), "trace": bool(trace_on),
           "ptype": type(payload).__name__}
     if n <= 512:
@@ -174,6 +182,11 @@ def gen_calls(rng, tier):
         lens |= {1 << 17, (1 << 20) + 3}
     lens = sorted(lens)
     kinds = ["default", "bytes", "str"]
+    # the same call on a connection with its own key source and then on one with the default source (and back):
+    # nothing of one connection's source may be used for another connection
+    for api, op, pl in (("ping", 9, b""), ("ping", 9, b"x"), ("pong", 10, b""), ("send_binary", 2, b""), ("send_binary", 2, b"ab"), ("close", 8, (1000, b""))):
+        for kk in ("bytes", "default", "str", "default", "bytes"):
+            calls.append((api, op, 1, pl, kk, False))
     for kk in ("zero", "counter", "ones"):
         for n in (0, 1, 5, 125, 126, 300, 65536):
             for api in ("send_binary", "send_frame", "ping", "resend_frame"):
